@@ -17,6 +17,8 @@ Mutation testing (scratch worktree on top of the fix commits, /tmp/mut/run.py,
   M8  cmdUpdate returns the old record offset                      tests ok    VIOLATION
   M9  client drops the low bit of the row offset                   tests ok    VIOLATION
   M10 Write1 drops the byte when the buffer is exactly full        tests ok    VIOLATION
+  M11 worker sets WriteBuf.conn only for its first task            tests ok    VIOLATION (two connections
+      (response goes to another connection)                                    share the worker pool)
 (VERIF_SKIP_MC=1 skips only the exhaustive TLC runs of the unchanged models.)
 """
 import json, os
